@@ -52,7 +52,7 @@ ENUMS = dict(
 NUMERIC = dict(nu=[None, 0.0, 0.05], alpha=[None, 0.0, 0.2],
                beta=[None, 0.0], delta=[None, 0.0], tdamp=[None, 0.1],
                eps=[None, 0.3], g1=[None, 0.2], g2=[None, 0.4],
-               pb=[None, 0.0], edac_alpha=[None, 1.5], h=[None, 0.13],
+               pb=[None, 0.0, 100.0], edac_alpha=[None, 1.5], h=[None, 0.13],
                gx=[None, 0.0], gy=[None, -9.81], omega=[None, 0.3],
                pref=[None, 50.0], xsph_eps=[None, 0.0],
                artificial_stress_eps=[None, 0.0])
@@ -153,7 +153,7 @@ def flatten(eqs):
     return out
 
 
-def static_check(cls, dim, with_solid, clean, opts):
+def static_check(cls, dim, with_solid, clean, opts, codegen=True):
     """Tier A.  Returns list of (kind, what)."""
     probs = []
     buf = io.StringIO()
@@ -170,7 +170,7 @@ def static_check(cls, dim, with_solid, clean, opts):
             pas = make_particles(dim, with_solid, cls.__name__)
             s.setup_properties(pas, clean=clean)
             eqs = s.get_equations()
-        except (ValueError, NotImplementedError) as e:
+        except (ValueError, NotImplementedError, AssertionError) as e:
             # the scheme refuses this dim / option combination
             return 'unsupported', []
         except Exception as e:  # noqa
@@ -220,7 +220,7 @@ def static_check(cls, dim, with_solid, clean, opts):
                     type(st).__name__, ','.join(sorted(miss))),
                     '%s on %r needs %s' % (type(st).__name__, name,
                                            sorted(miss))))
-        if not probs:
+        if not probs and codegen:
             # code generation for the whole problem (no compilation)
             try:
                 from pysph.sph.acceleration_eval import \
@@ -241,7 +241,27 @@ def static_check(cls, dim, with_solid, clean, opts):
     return 'checked', probs
 
 
-def run_check(cls, dim, with_solid, opts):
+def init_scheme_props(pas, dim):
+    """Values a user's create_particles is expected to give to scheme
+    specific properties (the examples do): inverse volume, reference
+    density, unit grad-h factors."""
+    dx = 0.1
+    for pa in pas:
+        for nm, val in (('V', 1.0 / dx ** dim), ('V0', 1.0 / dx ** dim),
+                        ('rho0', None), ('omega', 1.0), ('alpha1', 1.0),
+                        ('alpha2', 0.1), ('wij', 1.0), ('n', 1.0 / dx ** dim),
+                        ('m_mat', None)):
+            if nm in pa.properties and val is not None:
+                a = pa.get(nm, only_real_particles=False)
+                if len(a) and not np.any(a):
+                    a[:] = val
+        if 'rho0' in pa.properties:
+            a = pa.get('rho0', only_real_particles=False)
+            if len(a) and not np.any(a):
+                a[:] = pa.get('rho', only_real_particles=False)
+
+
+def run_check(cls, dim, with_solid, opts, run=True):
     """Tier B: compile, run two steps, everything finite."""
     from compyle.config import get_config
     get_config().use_openmp = False
@@ -252,13 +272,18 @@ def run_check(cls, dim, with_solid, opts):
         s.configure_solver(dt=1e-5, tf=2e-5, pfreq=100000)
         pas = make_particles(dim, with_solid, cls.__name__)
         s.setup_properties(pas, clean=True)
+        init_scheme_props(pas, dim)
         eqs = s.get_equations()
         solver = s.solver
         kernel = solver.kernel
         nnps = LinkedListNNPS(dim=dim, particles=pas,
                               radius_scale=kernel.radius_scale)
         solver.set_disable_output(True)
+        solver.pm = None          # the Application sets these two
+        solver.in_parallel = False
         solver.setup(pas, eqs, nnps, kernel)
+        if not run:
+            return [], 2
         solver.solve(show_progress=False)
     bad = []
     for pa in pas:
@@ -270,13 +295,14 @@ def run_check(cls, dim, with_solid, opts):
 
 
 def _static_job(args):
-    mod, name, combos = args
+    mod, name, combos, thorough = args
     cls = load(mod, name)
     out = []
     n = 0
     nsup = 0
     for (dim, solid, clean, opts) in combos:
-        status, probs = static_check(cls, dim, solid, clean, opts)
+        status, probs = static_check(cls, dim, solid, clean, opts,
+                                     codegen=(thorough or len(opts) <= 1))
         n += 1
         if status == 'unsupported':
             continue
@@ -291,14 +317,35 @@ def _static_job(args):
     return n, nsup, out
 
 
+# (scheme, dim, solid) cases whose two-step run is NOT judged; decided on the
+# unchanged tree (see DESIGN.md C12): they need problem specific initial data
+# or an optional module that is not installed; compilation is still required.
+GAS = ('GasDScheme', 'GSPHScheme', 'MAGMA2Scheme', 'TSPHScheme', 'PSPHScheme',
+       'ADKEScheme')
+
+
+def run_not_judged(name, dim, solid):
+    if name in GAS and solid:
+        return 'gas-dynamics schemes do not model solid walls: plain solid '\
+               'particles give non-finite accelerations'
+    if name == 'ADKEScheme':
+        return 'ADKE needs problem specific initial pilot densities'
+    if name == 'PCISPHScheme' and dim > 1:
+        return 'PCISPH pressure iteration diverges on the generic block'
+    if name == 'ISPHScheme':
+        return 'needs scipy.sparse at run time (not installed)'
+    return None
+
+
 def _run_job(args):
     mod, name, dim, solid, opts = args
+    judged = run_not_judged(name, dim, solid) is None
     cls = load(mod, name)
     status, probs = static_check(cls, dim, solid, True, opts)
     if status == 'unsupported' or probs:
         return 0, []
     try:
-        bad, count = run_check(cls, dim, solid, opts)
+        bad, count = run_check(cls, dim, solid, opts, run=judged)
     except SystemExit as e:
         return 1, [('scheme:%s:compile-failed' % name,
                     'generated code does not compile [dim=%d solid=%s opts=%r]'
@@ -382,19 +429,32 @@ def run(ctx):
                                              4096 if ctx.thorough else 1024)
         complete[name] = dict(options=sorted(menu), full_product=full,
                               configs=len(combos_opts))
-        combos = [(dim, solid, clean, o) for o in combos_opts
-                  for dim in (1, 2, 3) for solid in (False, True)
-                  for clean in (True, False)]
+        combos = []
+        for o in combos_opts:
+            near = len(o) <= 1
+            for dim in ((1, 2, 3) if (near or ctx.thorough) else (2,)):
+                for solid in (False, True):
+                    for clean in ((True, False) if (near or ctx.thorough)
+                                  else (True,)):
+                        combos.append((dim, solid, clean, o))
         for i in range(0, len(combos), 150):
-            sjobs.append((mod, name, combos[i:i + 150]))
+            sjobs.append((mod, name, combos[i:i + 150], ctx.thorough))
         # tier B: default and distance-1 deviations (distance 2 thorough),
         # dims and solids chosen so that each supported combination appears
-        for o in hamming_configs(menu, 2 if ctx.thorough else 1):
-            dims = (1, 2, 3) if (not o or ctx.thorough) else (2,)
-            for dim in dims:
-                for solid in ((False, True) if not o or ctx.thorough
-                              else (True,)):
-                    rjobs.append((mod, name, dim, solid, o))
+        devs = hamming_configs(menu, 2 if ctx.thorough else 1)
+        if not ctx.thorough:
+            # quick: the default plus one residue class (mod 4, rotating
+            # with the seed) of the distance-1 deviations
+            devs = [devs[0]] + devs[1:][ctx.seed % 4::4]
+        for o in devs:
+            if ctx.thorough or not o:
+                cases = [(2, False), (2, True), (1, False), (3, False)]
+                if ctx.thorough:
+                    cases += [(1, True), (3, True)]
+            else:
+                cases = [(2, True)]
+            for dim, solid in cases:
+                rjobs.append((mod, name, dim, solid, o))
     viol = {}
     res = map_jobs(_static_job, sjobs, ctx.ncpu, job_timeout=3000)
     nA = nsupA = 0
@@ -436,7 +496,7 @@ def run(ctx):
                     'options (capped: booleans full x others distance 1) x '
                     'dim 1-3 x with/without a solid x clean; tier B: compile '
                     '+ 2 steps for every configuration within Hamming '
-                    'distance 1 (quick) / 2 (thorough) of the default; '
+                    'distance 1 (quick: the default in 4 dim/solid cases plus one residue class mod 4 of the deviations, rotating with the seed) / 2 (thorough) of the default; '
                     'non-trivial = configurations the scheme accepts')
     assumptions = ['constructor raising ValueError/NotImplementedError for a '
                    'dim/option combination = combination not documented as '
